@@ -195,6 +195,52 @@ def ignore_other_repository(chk, sseed):
         w.destroy()
 
 
+def halfsynced_all(chk, sseed):
+    """two runs; in the second the Release has advanced but, for some index groups, EVERY variant still answers with the previous
+    version's file under its previous Last-Modified and Content-Length (a half-synced mirror): the skel copy of the first run
+    'matches the server' byte for byte, yet it is not the file the new Release lists - exit 0 is only allowed with a clean fsck
+    (seed agent-C01-14: the unmodified shortcut evaluated before the announced-size check)"""
+    from e2e import fsck as fsckmod
+    rng = random.Random(sseed)
+    w = common.World(rng, 1)
+    try:
+        repo = w.repos[0]
+        url = repo["url"]
+        w.run(chooser=vloop.RandomChooser(rng.randrange(1 << 30)))
+        old = w.stores()[url]
+        new = common.evolve(rng, repo)
+        store = w.stores([new])[url]
+        plan, stale = [], {}
+        for g in scenario.required_objects(new, w.cfgs[url], store):
+            us = [u for u in g["urls"] if "/by-hash/" not in u]
+            if not us or not all(u in old and u in store and old[u][0] != store[u][0] and len(old[u][0]) != len(store[u][0]) for u in us):
+                continue
+            if "/dists/" not in "/" + us[0] or rng.random() < 0.4:
+                continue
+            for u in us:
+                stale[u] = old[u]
+                plan.append([u, "*", "stale"])
+                for a in scenario.byhash_aliases(store, u):
+                    plan.append([a, "*", "404"])
+        if not stale:
+            chk.evaluated(None)
+            chk.count("halfsynced:nothing-changed")
+            return
+        res = run_e2e.execute(w.sb, [new], {url: store}, {url: plan}, vloop.RandomChooser(rng.randrange(1 << 30)), stale={url: stale})
+        replay = {"scenario_seed": sseed, "class": "halfsynced-all", "lines": w.lines, "stale_urls": sorted(stale)}
+        if res.exit == 0:
+            chk.count("antecedent_true(exit0)")
+            probs = fsckmod.fsck(runner.mirror_dir(w.sb, url), w.cfgs[url])
+            if probs:
+                chk.violation("exit0-fsck-dirty:halfsynced", replay, f"upstream still serves the previous index files under the new Release: exit 0 but {probs[0]}")
+        run_e2e.flush_l2(chk, replay)
+        chk.evaluated(("halfsynced-all", len(stale), res.exit), sample={"class": "halfsynced-all", "stale": sorted(stale)[:2], "exit": res.exit})
+        chk.count("halfsynced_all_runs")
+        chk.traces += 2
+    finally:
+        w.destroy()
+
+
 def run_one(chk, sseed, cls):
     if cls == "after-crash":
         return after_crash(chk, sseed)
@@ -486,6 +532,8 @@ def run(chk, tier, rng):
         # first in the run: what the tool keeps for the life of a process must not have been filled by earlier scenarios
         ignore_other_repository(chk, f"C01o-{chk.seed}-{i}")
     unpack_correspondence(chk, random.Random(f"unpack-{chk.seed}"), 64 if tier == "quick" else 400)
+    for i in range(12 if tier == "quick" else 200):
+        halfsynced_all(chk, f"C01h-{chk.seed}-{i}")
     for i in range(40 if tier == "quick" else 800):
         flat_one(chk, f"C01F-{chk.seed}-{i}")
     n = 160 if tier == "quick" else 3000
